@@ -142,11 +142,19 @@ class Finalize(Contract):
                 defaults = {lhs: d}
                 g['D0'], g['init_result'] = W.den_of(d), d
 
+            HOLD = z3.Function('HOLD!%d' % n, Int, z3.BoolSort())
+
             def elem(k):
                 key = k.sexpr()
                 if key not in cache:
                     st.assume(z3.And(g['P'](k) >= 0, g['P'](k) <= 1, g['R'](k) >= 0, g['R'](k) < H.pow2(Wl)))
-                    cache[key] = (W.new_wire(I, 1, g['P'](k), hint='p'), W.new_wire(I, Wl, g['R'](k), hint='rhs'))
+                    if kind == 'reg' and st.branch(HOLD(k)):
+                        # an explicit hold: the branch assigns the register to itself (r.next |= r)
+                        st.assume(g['R'](k) == q)
+                        cache[key] = (W.new_wire(I, 1, g['P'](k), hint='p'), lhs)
+                    else:
+                        cache[key] = (W.new_wire(I, 1, g['P'](k), hint='p'),
+                                      W.new_wire(I, Wl, g['R'](k), hint='rhs'))
                 return cache[key]
             plist = SSeq(N, elem, 'list')
         else:
